@@ -67,7 +67,7 @@ def check_program(node, rec=None):
         ds2, env2 = progcheck.build_checked(node)
         for path, sub in sorted(progcheck.subnodes(node), key=lambda t: -len(t[0])):
             m = ev(sub)
-            if not (m.indexable and m.sized and not m.has_raise and not m.unordered and not m.int_taint and m.n >= 2):
+            if not (m.indexable and m.sized and not m.has_raise and not m.unordered and not m.int_taint and 2 <= m.n <= 300):
                 continue
             d = env2.nodes[path]
             salt = progs.crc(progs.show(sub))
